@@ -302,3 +302,61 @@ class SetterInterp:
             if m.get("kind") in ("VarDecl", "ParmVarDecl") and m.get("id") == rid:
                 return True
         return False
+
+
+# ---------------------------------------------------------------------------------------------------------------------
+# RECBITS: the per-line copy of the option field keeps the SIB bits the instance had
+# ---------------------------------------------------------------------------------------------------------------------
+
+def record_bits_rule(chk, prog, rule="RECBITS", field="assembly_opt"):
+    """The per-line record starts with a copy of the instance's option field; the immediate scanner may resolve the SMART
+    mov-immediate choice in that copy (set / clear the two mov-immediate bits).  Any other store into the copy - a constant,
+    or a mask that reaches the SIB bits - changes how the memory operand of that very line is encoded."""
+    from .core import kids, strip, walk, expr_str, loc_str, ConstEval
+    from .macros import macro_values
+    from . import eff as EFF
+    mv = macro_values(prog, ["NASM_MOV_IMM", "SMART_MOV_IMM", "NASM_SIB_INDEX_BASE_SWAP", "NASM_SIB_NO_BASE"])
+    movbits = mv["NASM_MOV_IMM"] | mv["SMART_MOV_IMM"]
+    sib = mv["NASM_SIB_INDEX_BASE_SWAP"] | mv["NASM_SIB_NO_BASE"]
+    ce = ConstEval(prog)
+    n = 0
+    for fn, f in sorted(prog.lib_functions().items()):
+        for m in walk(prog.body(f)):
+            if m.get("kind") not in ("BinaryOperator", "CompoundAssignOperator") or not m.get("opcode", "").endswith("=") or \
+                    m.get("opcode") in ("==", "!=", "<=", ">="):
+                continue
+            l = strip(kids(m)[0])
+            owner, fld = EFF.owner_field(l)
+            if fld != field or owner in ("assemblyline", None):
+                continue
+            n += 1
+            op = m["opcode"]
+            r = strip(kids(m)[1], casts=True)
+            key = "%s/%s@%s" % (rule, fn, loc_str(m))
+            want = "a store into the per-line option copy leaves the SIB option bits (%#x) as the instance has them" % sib
+            if op == "=":
+                ro, rf = EFF.owner_field(r) if r.get("kind") == "MemberExpr" else (None, None)
+                if rf == field:
+                    chk.ok(rule, key, loc_str(m), "the per-line option copy is taken from the option field (%s)" % expr_str(r))
+                    continue
+                v = ce.try_eval(r)
+                if v is not None:
+                    chk.bad(rule, key, loc_str(m), want, "the copy is overwritten with the constant %#x: %s" % (v, expr_str(m)))
+                else:
+                    chk.broken(rule, key, loc_str(m), want, "cannot tell which bits %s changes" % expr_str(m)[:80])
+                continue
+            v = ce.try_eval(r)
+            if v is None:
+                chk.broken(rule, key, loc_str(m), want, "the mask of %s is not a constant" % expr_str(m)[:80])
+                continue
+            if op == "|=":
+                touched = v
+            elif op == "&=":
+                touched = ~v & 0xffffffff
+            elif op == "^=":
+                touched = v
+            else:
+                touched = 0xffffffff
+            chk.require(not (touched & sib), rule, key, loc_str(m), want, "%s changes bits %#x" % (expr_str(m), touched & 0xff))
+    chk.floor("stores into the per-line option copy", n, 2)
+    return n
